@@ -230,7 +230,7 @@ def partitions(tier, seed):
     def add(tpl, hole, form, armor, comments, cls, ln):
         P.append(dict(name="forms/%s/%s/%s%s%s/%s/len%d" % (tpl, hole, form, "+armor" if armor else "", "+comments" if comments else "", cls, ln),
                       harness="h_forms", params=dict(tpl=tpl, hole=hole, form=form, armor=armor, comments=comments, cls=cls, len=ln),
-                      budget=90 if q else 1200, reach=[],
+                      budget=90 if q else 600, reach=[],
                       bounds="template %s, symbolic %s of %d chars, input form %s, armor=%s, comments=%s, class %s" % (tpl, hole, ln, form, armor, comments, cls)))
     if q:
         for i, form in enumerate(FORMS):
@@ -242,17 +242,29 @@ def partitions(tier, seed):
         add("two", "cont", "bin-iter", False, True, "Deb822", 2)
         add("multi", "first", "lines-nl", True, False, "Deb822", 2)
     else:
+        k = 0
         for tpl in TEMPLATES:
             for hole in ("name", "first", "cont", "first0"):
                 for form in FORMS:
                     for armor in (False, True):
-                        if armor and tpl == "two":
+                        if armor and (tpl == "two" or form in ("lines-nl", "text-iter")):
+                            continue
+                        if tpl == "two" and form not in ("str", "bytes", "lines"):
+                            continue
+                        if hole == "first0" and tpl not in ("single", "emptyfirst"):
+                            continue
+                        if hole == "name" and form in ("lines-nl", "text-iter", "bin-iter"):
                             continue
                         for comments in (False, True):
+                            k += 1
+                            if comments and (k % 2):
+                                continue        # comments on every other combination
                             for ln in (1, 2, 3):
                                 if hole == "cont" and ln == 1:
                                     continue
-                                if hole == "name" and ln == 3:
+                                if hole in ("name", "first0") and ln == 3:
+                                    continue
+                                if ln == 3 and form not in ("str", "bytes"):
                                     continue
                                 add(tpl, hole, form, armor, comments, "Deb822" if not armor else ("Dsc", "Changes")[len(tpl) % 2], ln)
     return P
